@@ -110,6 +110,11 @@ class CallMixin:
                 a = self.res(self.ev(node.args[0]))
                 b = self.res(self.ev(node.args[1]))
                 return VInt(models.str2int(a.t, b.t))
+            if nm == 'valid_utf8':
+                v = self.res(self.ev(node.args[0]))
+                if isinstance(v, VOpaque):
+                    return VBool(models.valid_utf8(v.t))
+                return VBool(True)
             if nm == 'calls':
                 return VPtr(0)
             if nm == 'same_except':
@@ -665,6 +670,7 @@ class CallMixin:
                     result = r.value
                 env['result'] = result
                 pr.outcome = 'return'
+                self.emit(f'{contract.oname}::every-path-ends-in-return-or-documented-exception', 'exit', z3.BoolVal(True))
                 for nm, e in contract.ensures:
                     self.check_spec(e, f'{contract.oname}::{nm}', 'post')
             except PyRaise as ex:
@@ -679,6 +685,7 @@ class CallMixin:
                     self.emit(f'{contract.oname}::raises:{cls}@{ex.site.split("::", 2)[-1]}', 'raises',
                               z3.BoolVal(False), {'exception': cls, 'site': ex.site})
                 else:
+                    self.emit(f'{contract.oname}::every-path-ends-in-return-or-documented-exception', 'exit', z3.BoolVal(True))
                     r = contract.raises[allowed]
                     env['exc'] = ex.exc
                     if r.when:
